@@ -774,5 +774,15 @@ func (d *DataChannel) collectStats(collector *statsReportCollector) {
 
 func (d *DataChannel) setReadyState(r DataChannelState) {
 	defer verifhook.Bracket("dc.readyState", d, func() int64 { return int64(d.ReadyState()) })()
-	d.readyState.Store(r)
+	// The ready state only moves forward (connecting -> open -> closing -> closed): the racing
+	// writers (open, Close, the read loop, PeerConnection.Close) must not revive a channel.
+	for {
+		cur := d.readyState.Load()
+		if state, ok := cur.(DataChannelState); ok && state >= r {
+			return
+		}
+		if d.readyState.CompareAndSwap(cur, r) {
+			return
+		}
+	}
 }
